@@ -288,7 +288,7 @@ def c19(prop, tier):
         bs.append({'id': 'elseif-counterexample', 'steps': m['trace']})
     else:
         ck.inconclusive.append('mutant specification (else-if) not refuted by TLC: vacuity guard failed')
-    sims, _ = vlib.tlc_simulate('SimStatus.tla', st_cfg('Status.sim.cfg', 'SimSpec', 4, 4, False, props=''), 'C19-sim', 60 if thorough else 14, 14, SEED)
+    sims, _ = vlib.tlc_simulate('SimStatus.tla', st_cfg('Status.sim.cfg', 'SimSpec', 4, 4, False, props=''), 'C19-sim', 400 if thorough else 14, 14, SEED)
     bs += sims
     for b in bs:
         for st in b['steps']:
